@@ -184,7 +184,10 @@ def frames_part(c, tier):
     quick = tier == "quick"
     vf.build_lib("asan")
     vf.build_harness("replay_frame", "asan")
-    mc = vf.run_tlc("Frames", "Frames.cfg", c.run_dir, timeout=1500, workers=8, keep_out=False)
+    mc = vf.run_tlc("Frames", "Frames.cfg", c.run_dir, timeout=1500, workers=8, keep_out=False, coverage=True)
+    never = [a for a in ("AddSymbol", "AddExisting", "AddFrame", "MoveTo", "RemoveSym") if mc.coverage.get(a, (0, 0))[0] == 0]
+    if never:
+        raise vf.MachineryError("vacuous Frames run: %s never taken" % never)
     c.add_tlc("Frames", mc, "LatestWins, Innermost, RemoveExact on every history of 4 symbol-table operations (3 frames, names a / b / anonymous); behaviours exported")
     cases = [e for e in mc.emitted if "ops" in e]
     if not quick:
